@@ -1087,7 +1087,9 @@ sim::CaseResult CtrlSim::runCase(const sim::Options &o, const Json &plan)
                 }
                 catch (ompl::Exception &)
                 {
-                    refRun = false;
+                    // refused in setup(), as solve() would have been: the history ends here
+                    res.probes["setup-refused(ompl::Exception)"]++;
+                    break;
                 }
             }
             if (refRun)
